@@ -36,6 +36,13 @@ func init() {
 				tag string
 			}
 			var made []est
+			// per id: the server serving it and a channel closed when its AcceptAndServe has returned
+			type serving struct {
+				srv  chan *grpc.Server
+				done chan struct{}
+			}
+			served := map[uint32]*serving{}
+			lastID := uint32(0)
 			pingAll := func(when string) {
 				ctx, cancel := context.WithTimeout(context.Background(), 20*time.Second)
 				defer cancel()
@@ -58,15 +65,51 @@ func init() {
 			}
 			for i, e := range strings.Split(p["seq"], ",") {
 				id := uint32(20 + i)
+				reuse := strings.HasSuffix(e, "r")
+				e = strings.TrimSuffix(e, "r")
 				as, order, gap := e[0], e[1], ms(e[2:])
 				ab, adom := pr.side(as)
 				db, ddom := pr.side(other(as))
+				if reuse && lastID != 0 {
+					// "<est>r": the previous establishment's server is stopped, its AcceptAndServe has returned
+					// (listener closed) and its connection is closed; the same id is then accepted and dialled
+					// afresh (an id must not be accepted more than once *at one time*)
+					id = lastID
+					sv := served[id]
+					stopped := make(chan struct{})
+					x.Go("host", func() {
+						defer close(stopped)
+						select {
+						case srv := <-sv.srv:
+							srv.Stop()
+							<-sv.done
+						case <-sv.done:
+						}
+					})
+					<-stopped
+					for k, m := range made {
+						if m.id == id {
+							m.cc.Close()
+							made = append(made[:k:k], made[k+1:]...)
+							break
+						}
+					}
+					vs.Point("previous-closed")
+				}
+				lastID = id
 				tag := fmt.Sprintf("id=%d", id)
+				if reuse {
+					tag += strings.Repeat("r", i) // generations of a re-accepted id answer differently
+				}
 				res := make(chan est, 1)
+				sv := &serving{srv: make(chan *grpc.Server, 1), done: make(chan struct{})}
+				served[id] = sv
 				accept := func() {
+					defer close(sv.done)
 					ab.AcceptAndServe(id, func(opts []grpc.ServerOption) *grpc.Server {
 						s := grpc.NewServer(opts...)
 						grpctest.RegisterPingPongServer(s, &ppServer{tag: tag})
+						sv.srv <- s
 						return s
 					})
 				}
@@ -74,7 +117,7 @@ func init() {
 					t0 := x.Now()
 					cc, err := db.Dial(id)
 					if err != nil {
-						x.Put(fmt.Sprintf("derr%d", id), fmt.Sprintf("Dial: %v", err))
+						x.Put(fmt.Sprintf("derr%d", 20+i), fmt.Sprintf("Dial: %v", err))
 						res <- est{id: id}
 						return
 					}
@@ -84,7 +127,7 @@ func init() {
 					got, err := pingTag(ctx, cc)
 					x.Obs("est%d err=%v tag=%s", id, err != nil, got)
 					if err != nil {
-						x.Put(fmt.Sprintf("derr%d", id), fmt.Sprintf("first RPC: %v (after %v)", err, x.Now()-t0))
+						x.Put(fmt.Sprintf("derr%d", 20+i), fmt.Sprintf("first RPC: %v (after %v)", err, x.Now()-t0))
 						cc.Close()
 						res <- est{id: id}
 						return
@@ -133,7 +176,7 @@ func init() {
 						defer close(rd)
 						cc, err := db.Dial(id)
 						if err != nil {
-							x.Put(fmt.Sprintf("derr%d", id), fmt.Sprintf("second Dial: %v", err))
+							x.Put(fmt.Sprintf("derr%d", 20+i), fmt.Sprintf("second Dial: %v", err))
 							return
 						}
 						x.OnCleanup(func() { cc.Close() })
@@ -142,7 +185,7 @@ func init() {
 						got, err := pingTag(ctx, cc)
 						x.Obs("redial%d err=%v tag=%s", id, err != nil, got)
 						if err != nil {
-							x.Put(fmt.Sprintf("derr%d", id), fmt.Sprintf("first RPC on the second connection: %v", err))
+							x.Put(fmt.Sprintf("derr%d", 20+i), fmt.Sprintf("first RPC on the second connection: %v", err))
 						} else if got != tag {
 							x.Fail("S", "misrouted: second connection dialled for id %d was answered by %q%s", id, got, raceNote(x))
 						}
@@ -163,10 +206,11 @@ func init() {
 				return
 			}
 			if x.Data["completed"] != true {
-				x.Fail("L", "driver never finished (blocked: %s)", strings.Join(x.EndBlocked, "; "))
+				x.Fail("L", "driver never finished (blocked: %s)%s", strings.Join(x.EndBlocked, "; "), raceNote(x))
 			}
 			if x.TimeDevs == 0 {
 				for i, e := range strings.Split(p["seq"], ",") {
+					e = strings.TrimSuffix(e, "r")
 					if ms(e[2:]) < 5*time.Second {
 						if v, ok := x.Data[fmt.Sprintf("derr%d", 20+i)]; ok {
 							x.Fail("T", "establishment %d (%s) inside the window failed: %v", i+1, e, v)
@@ -193,11 +237,13 @@ func init() {
 				}
 			}
 			for _, e := range x.EndBlocked {
-				x.Fail("L", "blocked forever: %s", e)
+				x.Fail("L", "blocked forever: %s%s", e, raceNote(x))
 			}
 			x.GoFree(func() { pr.gc.Close(); pr.srv.Stop() })
 			x.Quiesce(12 * time.Second)
-			checkNoLeak(x, "hashicorp/go-plugin.")
+			for _, g := range x.Goroutines("hashicorp/go-plugin.") {
+				x.Fail("L", "goroutine left behind: %s%s", g, raceNote(x))
+			}
 		},
 		Conform: func() []explore.Params {
 			return []explore.Params{{"seq": "pA0"}, {"seq": "hD0"}, {"seq": "pA0,hD0"}}
@@ -232,6 +278,14 @@ func init() {
 				for _, a := range []string{"pA0", "hA0", "pD1000", "hD0"} {
 					out = append(out, explore.Params{"seq": a, "redial": "6000"})
 				}
+			case "reuse":
+				// the same id accepted again after its first listener was closed, each side accepting, both orders
+				for _, a := range []string{"pA0", "hA0", "pD0", "hD0"} {
+					for _, b := range []string{"pA0r", "hA0r", "pD0r", "hD0r", "hA1000r", "pD1000r"} {
+						out = append(out, explore.Params{"seq": a + "," + b})
+					}
+				}
+				out = append(out, explore.Params{"seq": "hA0,hA0r,hA0"}, explore.Params{"seq": "pA0,pD0r,hD0"}, explore.Params{"seq": "hD0,hD0r,hD0r"})
 			case "traffic-single":
 				for _, a := range one {
 					out = append(out, explore.Params{"seq": a, "traffic": "1"})
